@@ -207,7 +207,7 @@ def decide(thunk):
 
 class FaultPlan:
     """Step hook for MemFS driven by symbolic ints: mode 0 none, 1 crash before step k, 2 torn write at step k (t bytes; a non-write step
-    just crashes), 3 step k fails with errno e. k may be an unbounded symbolic int: each step asks the solver whether k == idx."""
+    just crashes), 3 step k fails with errno e, 4 short write at step k (the device accepts only a prefix). k may be an unbounded symbolic int: each step asks the solver whether k == idx."""
 
     def __init__(self, mode, k, t=0, err=5, k2=None, err2=5, only=None):
         self.mode, self.k, self.t, self.err, self.k2, self.err2 = mode, k, t, err, k2, err2
@@ -228,6 +228,8 @@ class FaultPlan:
                 return ("crash",)
             if self.mode == 2:
                 return ("torn", self.t)
+            if self.mode == 4:
+                return ("short", self.t)
             return ("fail", self.err)
         if self.k2 is not None and decide(lambda: self.k2 == i):
             self.fired.append((i, name) + tuple(args))
